@@ -111,7 +111,10 @@ func (p *Prop[S]) Check(t *testing.T) {
 	t.Helper()
 	var jf *os.File
 	if p.Journal {
-		dir := filepath.Join(verifDir(), "work", "journal", p.Property)
+		dir := os.Getenv("VERIF_JOURNAL")
+		if dir == "" {
+			dir = filepath.Join(verifDir(), "work", "journal", p.Property)
+		}
 		os.MkdirAll(dir, 0o755)
 		f, err := os.Create(filepath.Join(dir, fmt.Sprintf("%s-%s%s.json", p.Property, p.Name, shardTag())))
 		if err == nil {
